@@ -477,7 +477,9 @@ def canon_tables(ctx, cfg_name, prog, rule='R-CANON'):
                                                                  for c in []) ]
         fs = [f for f in fs if not all((prog.callee(c, f) or {}).get('externC') for c in pr.calls(f['body']) or [{}])]
         for f in fs:
-            g = CFG(f)
+            # a helper of the same record that is not itself one of the decided operations is part of the operation that calls it
+            decided = {q for q, _, _ in specs}
+            g = CFG(f, inline_this=lambda cal, f=f: cal.get('parent') == f.get('parent') and strip_tmpl(cal.get('qn', '')) not in decided)
             pname = f['params'][-1]['name'] if qn.endswith('reduce') else [p['name'] for p in f['params'] if p['name'] == 'p'][0]
             fixes = [nd for nd in g.stmt_nodes() for c in pr.calls(nd.ast)
                      if c['name'] == fix and pr.canon(c['this']) == 'this->val' and pr.norm_obj(pr.canon(c['args'][-1])) == 'P:' + pname]
